@@ -311,18 +311,15 @@ func (a Amount) String() string {
 	if a.exp > 1000 {
 		return "NA"
 	}
-	p := intPow(10, a.exp)
-	v := a.value
+	p := uint64(intPow(10, a.exp))
+	v := uint64(a.value)
 	s := ""
-	if v < 0 {
+	if a.value < 0 {
 		s = "-"
-		v = -v
+		v = -v // two's complement magnitude, also correct for math.MinInt64
 	}
 	v1 := v / p
 	v2 := v - (v1 * p)
-	//if v2 < 0 {
-	//	v2 = -v2
-	//}
 	return fmt.Sprintf("%s%d.%0*d", s, v1, a.exp, v2)
 }
 
